@@ -8,6 +8,7 @@ pub mod engine;
 pub mod gl;
 pub mod tape;
 pub mod lit;
+pub mod textmut;
 pub mod props;
 
 use engine::Tier;
@@ -52,6 +53,15 @@ fn main() {
             println!("{:?}", out);
             println!("shape after {:?}", gl::stack_shape(&vm));
             println!("host log: {:?}", gl::take_host_log());
+        }
+        "probe-case" => {
+            // probe-case <Cxx> <json-file-with-case>: run exec in-process and print the observation
+            let p = props::lookup(&args[2]).unwrap_or_else(|| usage());
+            let v: serde_json::Value = serde_json::from_str(&std::fs::read_to_string(&args[3]).unwrap()).unwrap();
+            let case = if v.get("case").is_some() { v["case"].clone() } else { v };
+            let mut ctx = engine::WorkerCtx { state: None, cases_done: 0 };
+            let out = p.exec(&mut ctx, &case);
+            println!("{}", serde_json::to_string_pretty(&out).unwrap());
         }
         "probe-leak" => {
             use gluon::vm::thread::ThreadInternal;
